@@ -128,7 +128,7 @@ def tlc(spec, cfg_text, wd, workers=4, env=None, timeout=600, name=None, extra=N
     if env:
         e.update(env)
     cmd = ["timeout", str(timeout), "tlc", "-workers", str(workers), "-metadir", os.path.join(wd, "meta_" + name),
-           "-cleanup", "-noGenerateSpecTE", "-config", cfg] + (extra or []) + [os.path.join(SPEC, spec)]
+           "-cleanup", "-noGenerateSpecTE", "-checkpoint", "0", "-config", cfg] + (extra or []) + [os.path.join(SPEC, spec)]
     p = subprocess.run(cmd, cwd=wd, env=e, stdout=subprocess.PIPE, stderr=subprocess.STDOUT, text=True)
     out = p.stdout
     if p.returncode == 124:
